@@ -17,7 +17,7 @@ EXTENDS MinerRegistry, BigNat, Json
 Trace == ndJsonDeserialize("trace.ndjson")
 B == 10000
 Ids == {1, 2}
-Accounts == {1, 2, 3}
+Accounts == {1, 2, 3, 4}     \* 4: the cold address (never a source)
 
 VARIABLES l, bad, R, acct, prev
 tvars == <<l, bad, R, acct, prev>>
@@ -62,13 +62,18 @@ Scale(n) == MulSmall(ShiftUp(FromNat(n, B), 4), 100, B)
 LockedOf(Rg) == IF Rg[1].present /\ Rg[2].present THEN Rg[1].stake + Rg[2].stake
                 ELSE IF Rg[1].present THEN Rg[1].stake
                 ELSE IF Rg[2].present THEN Rg[2].stake ELSE 0
-Total(st) == Add(Add(Add(Add(Add(st.bal[1], st.bal[2], B), st.bal[3], B), st.fee, B), st.escrow, B),
+Total(st) == Add(Add(Add(Add(Add(Add(st.bal[1], st.bal[2], B), st.bal[3], B), st.bal[4], B), st.fee, B), st.escrow, B),
                  Scale(LockedOf(Reg(st))), B)
 
 (* --- the property on one observed state ----------------------------------- *)
-JudgeState(st) ==
+(* omTag: how a violation of "an account controls at most one miner" is named.  The recorded
+   finding is specific: the by-account index does not see miners created earlier in the SAME
+   block, which the as-coded reference run (RefRun with View) reproduces exactly; such a violation
+   is named ".same-block-view", its continuation in later states ".persisting"; any other way to
+   get two miners under one account keeps the plain name and is a new violation. *)
+JudgeState(st, omTag) ==
   LET Rg == Reg(st) IN
-  Tag(OneMinerPerAccount(Rg), "Inv.OneMinerPerAccount") \o
+  Tag(OneMinerPerAccount(Rg), omTag) \o
   (* lookup by account agrees with lookup by id *)
   Tag(\A a \in Accounts : (st.byAccount[a] # 0) = Occupied(Rg, a), "Inv.ByAccountFindsMiner") \o
   Tag(\A a \in Accounts : st.byAccount[a] \in Ids => (Rg[st.byAccount[a]].present /\ Rg[st.byAccount[a]].account = a),
@@ -90,7 +95,10 @@ JudgeBlock(e) ==
       ref == RefRun(R, R, [a \in Accounts |-> prev.balTokens[a]], e.txs, 1, <<>>)
       a2  == AcctRun(R, acct, e.txs, 1)
       single == Len(e.txs) = 1
-  IN JudgeState(st) \o
+      omTag == IF ~OneMinerPerAccount(R) THEN "Inv.OneMinerPerAccount.persisting"
+               ELSE IF ~OneMinerPerAccount(ref.R) /\ Rg = ref.R /\ Len(e.txs) >= 2 THEN "Inv.OneMinerPerAccount.same-block-view"
+               ELSE "Inv.OneMinerPerAccount"
+  IN JudgeState(st, omTag) \o
      Tag(\A i \in Ids : Rg[i].present => Rg[i].stake = a2[i], "Inv.StakeIsAppliedPlusAddedMinusRefunded") \o
      Tag(Total(st) = Total(prev), "Inv.Conservation") \o
      Tag(st.propOthers = prev.propOthers /\ st.propCountOthers = prev.propCountOthers, "Inv.OtherMinersUntouched") \o
@@ -107,18 +115,18 @@ JudgeBlock(e) ==
      Tag(Rg = ref.R, "Block.registry")
 
 JudgeMature(e) ==
-  JudgeState(e.state) \o
+  JudgeState(e.state, IF ~OneMinerPerAccount(R) THEN "Inv.OneMinerPerAccount.persisting" ELSE "Inv.OneMinerPerAccount") \o
   Tag(Total(e.state) = Total(prev), "Inv.Conservation") \o
   Tag(Reg(e.state) = R, "Inv.MatureKeepsRegistry")
 
 Judge(e) ==
   CASE e.event = "Block" -> JudgeBlock(e)
     [] e.event = "Mature" -> JudgeMature(e)
-    [] e.event = "Reset" -> JudgeState(e.state)
+    [] e.event = "Reset" -> JudgeState(e.state, "Inv.OneMinerPerAccount")
     [] OTHER -> <<>>
 
 TraceInit == /\ l = 1 /\ bad = <<>> /\ R = [i \in Ids |-> Absent] /\ acct = [i \in Ids |-> 0]
-             /\ prev = [balTokens |-> <<0, 0, 0>>]
+             /\ prev = [balTokens |-> <<0, 0, 0, 0>>]
 
 TraceNext ==
   /\ l <= Len(Trace)
